@@ -204,6 +204,18 @@ func vfGzipPoolProbe(mux *Mux) {
 	d1, e1 := vfGunzip(b1.Bytes())
 	d2, e2 := vfGunzip(b2.Bytes())
 	vfCheck(e1 == nil && e2 == nil && string(d1) == "one" && string(d2) == "two!", "two compressions in flight at once do not each produce their own stream (a pooled gzip writer is shared)")
+	// every object is in a pool at most once: what three users take at the same time are three
+	// different objects (an object put twice is handed to two requests at once)
+	x1, x2, x3 := bufPool.Get().(*bytes.Buffer), bufPool.Get().(*bytes.Buffer), bufPool.Get().(*bytes.Buffer)
+	vfCheck(x1 != x2 && x1 != x3 && x2 != x3, "the buffer pool handed the same buffer to two users (a buffer was put back twice)")
+	bufPool.Put(x1)
+	bufPool.Put(x2)
+	bufPool.Put(x3)
+	y1, y2, y3 := bytesPool.Get().(*[]byte), bytesPool.Get().(*[]byte), bytesPool.Get().(*[]byte)
+	vfCheck(y1 != y2 && y1 != y3 && y2 != y3, "the byte pool handed the same slice to two users (a slice was put back twice)")
+	bytesPool.Put(y1)
+	bytesPool.Put(y2)
+	bytesPool.Put(y3)
 	vfCover("pool-probe")
 }
 
